@@ -240,8 +240,9 @@ func propC16(c *Check) {
 			if p.R(eb).blockReach(epochSt[0].Block())[epochSt[0].Block()] {
 				c.Violated("R4", "epoch-once @ "+FuncKey(eb), p.InstrPos(epochSt[0]), "epoch increment inside a loop")
 			}
-			relSetOK := edgeSet(p.MatchEdges(eb, regexp.MustCompile(`^\(Relayer\.Set\(Relayer\.Get\(\)#0\)(‹\d+›)? == nil\)$`)))
-			if t, path := (&PathSearch{Fn: eb, From: qg[0], AvoidEdges: relSetOK, IsTarget: succ}).Find(); t != nil {
+			relRe := regexp.MustCompile(`^\(Relayer\.Set\((Relayer\.Get\(\)#0|\$\d)\)(‹\d+›)? == nil\)$`)
+			relSetOK := edgeSet(p.MatchEdges(eb, relRe))
+			if t, path := (&PathSearch{Fn: eb, From: qg[0], AvoidEdges: relSetOK, IsTarget: p.successTargetsFor(eb, relRe)}).Find(); t != nil {
 				c.Violated("R4", "relayer-stored-on-every-election @ "+FuncKey(eb), p.InstrPos(t), "an election path ends without storing the relayer", p.describePath(path)...)
 			} else {
 				c.Held("R4", "relayer-stored-on-every-election @ "+FuncKey(eb), p.InstrPos(qg[0]), "")
@@ -360,8 +361,9 @@ func propC16(c *Check) {
 			}
 		}
 		if len(clr) > 0 {
-			qsOK := edgeSet(p.MatchEdges(eb, regexp.MustCompile(lit("(Queue.Set(Queue.Get()#0) == nil)"))))
-			if t, path := (&PathSearch{Fn: eb, From: clr[len(clr)-1], AvoidEdges: qsOK, IsTarget: successTargets(eb)}).Find(); t != nil {
+			qsRe := regexp.MustCompile(lit("(Queue.Set(Queue.Get()#0) == nil)"))
+			qsOK := edgeSet(p.MatchEdges(eb, qsRe))
+			if t, path := (&PathSearch{Fn: eb, From: clr[len(clr)-1], AvoidEdges: qsOK, IsTarget: p.successTargetsFor(eb, qsRe)}).Find(); t != nil {
 				c.Violated("R4", "cleared-queue-stored @ "+FuncKey(eb), p.InstrPos(t), "queues cleared in memory but not stored", p.describePath(path)...)
 			} else {
 				c.Held("R4", "cleared-queue-stored @ "+FuncKey(eb), p.InstrPos(clr[0]), "")
